@@ -674,9 +674,14 @@ def appBindReq (e : EP) (req : Nat) (bt : BindType) (host : Bytes) (port : Nat) 
   match drawId e.flows e.rng e.fallback 64 with
   | none => (e, [.bindDone req .closed])
   | some (fid, rng', fb') =>
-    let e := { e with rng := rng', fallback := fb', flows := insert e.flows fid (.bindRequested req) }
-    if e.outClosed then (e, [.bindDone req .closed])
-    else (e.enqFrame (.bind fid bt port host), [])
+    if e.outClosed then
+      -- `tx_msg_tx.send` fails: the call returns `Closed` at once. (The real table keeps the
+      -- `BindRequested` slot until the wind-down drains it, but its oneshot receiver is gone with the
+      -- caller, so nothing observable depends on it any more; the model does not keep it.)
+      ({ e with rng := rng', fallback := fb' }, [.bindDone req .closed])
+    else
+      (({ e with rng := rng', fallback := fb', flows := insert e.flows fid (.bindRequested req) } : EP).enqFrame
+        (.bind fid bt port host), [])
 
 /-- `next_bind_request`, one poll. -/
 def appBindNext (e : EP) : EP × Res :=
